@@ -205,6 +205,9 @@ pub fn run(rep: &mut Report, backend: Bk, thorough: bool) {
         ("json-huge-content", format!(r#"{{"pubkey":"{}","created_at":1,"kind":9,"tags":[],"content":"{}"}}"#, w.nodes[&vec![]].clients["X"].pk().to_hex(), "x".repeat(if thorough { 1_100_000 } else { 200_000 })).into_bytes()),
         ("json-many-tags", format!(r#"{{"pubkey":"{}","created_at":1,"kind":9,"tags":[{}],"content":"t"}}"#, w.nodes[&vec![]].clients["X"].pk().to_hex(), vec![r#"["t","x"]"#; 20000].join(",")).into_bytes()),
         ("json-kind-out-of-range", format!(r#"{{"pubkey":"{}","created_at":1,"kind":70000,"tags":[],"content":"t"}}"#, w.nodes[&vec![]].clients["X"].pk().to_hex()).into_bytes()),
+        ("json-time-2^63", format!(r#"{{"pubkey":"{}","created_at":9223372036854775808,"kind":9,"tags":[],"content":"t63"}}"#, w.nodes[&vec![]].clients["X"].pk().to_hex()).into_bytes()),
+        ("json-time-2^63-1", format!(r#"{{"pubkey":"{}","created_at":9223372036854775807,"kind":9,"tags":[],"content":"t63m"}}"#, w.nodes[&vec![]].clients["X"].pk().to_hex()).into_bytes()),
+        ("json-time-u64-max", format!(r#"{{"pubkey":"{}","created_at":18446744073709551615,"kind":9,"tags":[],"content":"tmax"}}"#, w.nodes[&vec![]].clients["X"].pk().to_hex()).into_bytes()),
         ("json-negative-time", format!(r#"{{"pubkey":"{}","created_at":-5,"kind":9,"tags":[],"content":"t"}}"#, w.nodes[&vec![]].clients["X"].pk().to_hex()).into_bytes()),
     ];
     let sender_x = w.nodes[&vec![]].clients["X"].fork();
@@ -296,6 +299,9 @@ pub fn run(rep: &mut Report, backend: Bk, thorough: bool) {
                         continue;
                     }
                 };
+                if std::env::var("VERIF_DEBUG2").is_ok() && label.starts_with("json-time") {
+                    eprintln!("DEBUG2 {backend:?} {label} {slabel} -> {kind} changed={}", before != after);
+                }
                 *outcomes.lock().unwrap().entry(format!("{kname}:{label}:{slabel}:{kind}")).or_insert(0) += 1;
                 if kind == "PANIC" {
                     findings.lock().unwrap().push((format!("C06|panic|{kname}|{label}|{slabel}"), format!("process_message panics on a {kname} with {label} in state {slabel}"), json!({"event_kind": kname, "mutation": label, "state": slabel, "event": ev, "backend": format!("{backend:?}")})));
